@@ -258,8 +258,8 @@ def pick_crashes(rng, base, dense):
 class C15(core.Property):
     id = "C15"
     driver = "drv-c15"
-    lake_targets = ["HappyProofs.C15.Props", "drv-c15"]
-    audit_imports = ["HappyProofs.C15.Props"]
+    lake_targets = ["HappyProofs.C15.Props", "HappyProofs.C15.MultiFull", "HappyProofs.C15.MultiFullEx", "drv-c15"]
+    audit_imports = ["HappyProofs.C15.Props", "HappyProofs.C15.MultiFull"]
     lean_files = ["HappyModel/C14/*.lean", "HappyModel/C15/*.lean", "HappyProofs/C14/*.lean", "HappyProofs/C15/*.lean",
                   "HappyModel/Proto.lean", "Driver/C15.lean"]
     theorems = []
@@ -295,6 +295,9 @@ class C15(core.Property):
         "or from SSTables; the third read of every cycle — after a second crash + recover — checks exactly that)",
     ]
     hypotheses = [
+        "multi_crash_spec_full_proved, per phase: InOrder and syncsInOrderB along the phase's schedule from the system the phase starts from; a "
+        "phase schedules only operations that had not started before it (operations in flight at a crash are abandoned — true of the harness: "
+        "every phase runs new worker scripts in a fresh Simulation); operation ids < 900000 (the id space of the baseline records)",
         "syncsInOrderB (sync_done_durable, acked_every_sync_done, ack_bound_le_synced, crash_spec_ack): sync completions happen in the order of "
         "their WAL sequence numbers — WriteAheadLog.append sets synced_up_to := its own sequence number after the sync latency, which is "
         "monotone only then; holds in the engine because every sync costs the same latency and equal times are served first-in first-out "
@@ -315,23 +318,19 @@ class C15(core.Property):
                                    "with every write of a smaller sequence number) as well as from synced_up_to. crash_spec_ack / crash_spec_ack_at_every_index: the "
                                    "model's own observations satisfy it for every workload, policy, schedule and crash index under the crash_spec hypotheses plus "
                                    "syncsInOrderB; sync_done_durable / acked_every_sync_done: every such write has sequence number <= synced_up_to in the model.",
-        "multi_crash_spec_full": "sequences of crashes (HappyModel/C15/Phases.lean, judgePhases). Stated as def multi_crash_spec_full (Phases.lean): the model's own "
-                                   "observations of every phase of every sequence of crashes satisfy judgePhases. Proved: the first phase in full "
-                                   "(multi_crash_first_phase / multi_crash_first_of_runPhases, = crash_spec_ack); for every phase of every sequence from any start system: "
-                                   "recovering twice / crashing again gives the same reads (phase_recover_idempotent), a recovered cell is a surviving log entry's or an "
-                                   "SSTable's (phase_no_invention), a crash cycle with nothing executed returns the baseline (idle_phase_after, recovered_is_durable); "
-                                   "multi_crash_spec_partial: the WHOLE predicate judgePhases (durable_survive, no_resurrection, no_invention, recover_idempotent, baseline "
-                                   "and earlier-phase values) for every sequence of crashes — any number of phases, every policy, every schedule, lossy crashes, abandoned "
-                                   "operations, stuck _compacting / _wal_pending — under the hypotheses of multi_crash_spec_full plus NoInstall for the phases after the "
-                                   "first crash: no flush-install and no compaction-install segment executes there (memtables may be frozen; the first phase is "
-                                   "unrestricted). Proof without ghost log: levels constant, log only appended (pinv_run), per-key facts (later_phase_facts), judge link "
-                                   "(judgePhase_of_facts, later_phase_judge), induction over the phase list (judgePhases_later, kstart_first, kstart_next); and the "
-                                   "state-level contracts a second crash relies on, for every state: sequence numbers are not rewound (crash_keeps_nextSeq: the surviving log "
-                                   "has gaps), crash keeps exactly the entries <= synced_up_to (crash_wal), a flush's truncation drops only entries <= its bound whatever gaps "
-                                   "the log has (flushInstall_keeps_newer, flushInstall_wal_sub). NOT proved: durable_survive / no_resurrection for phases after the first "
-                                   "crash in which a flush or compaction INSTALLS (the log is truncated / levels change over a recovered state) — the run invariants LInv / WInv (ghost log of memtable inserts tied to frames) are established from a fresh tree only; "
-                                   "re-establishing them for a recovered state with abandoned operations is open. Those clauses are checked by the Lean judge on every "
-                                   "multi-crash case and the model is compared with the implementation after every crash.",
+        "multi_crash_spec_full (hypotheses, not gaps)": "sequences of crashes (HappyModel/C15/Phases.lean, judgePhases): multi_crash_spec_full_proved (MultiFull.lean) proves "
+                                   "the statement multi_crash_spec_full in full — the model's own observations of every phase of every sequence of crashes satisfy the "
+                                   "whole predicate judgePhases (durable_survive, no_resurrection, no_invention, recover_idempotent, baseline and earlier-phase values), "
+                                   "for every workload, policy, number of phases and schedule, with flushes and compactions installing after a crash, lossy crashes "
+                                   "(sequence gaps), abandoned operations, stuck _compacting / _wal_pending. Hypotheses per phase, from the system the phase starts from: "
+                                   "InOrder, syncsInOrderB, a phase schedules only operations that had not started before it (in-flight operations are abandoned), "
+                                   "operation ids below the baseline id space, a WAL is configured, 2 <= max_levels, DistinctPuts. Proof: the dead frames are dropped by a "
+                                   "simulation lemma (run_live), the run invariants are generalised to a recovered state (SysInvB with exclusivity <=, LInvB / WInvB with "
+                                   "base events that have no frame: one per surviving log entry and per SSTable entry; linvB_step, winvB_run), recovered_casesB gives the "
+                                   "per-key facts, later_phase_judgeB the judge link and the hand-over to the next phase. multi_crash_spec_partial (ghost-log-free proof "
+                                   "under NoInstall) and the state-level / all-phases lemmas (crash_keeps_nextSeq, crash_wal, flushInstall_keeps_newer, "
+                                   "phase_recover_idempotent, phase_no_invention, idle_phase_after) remain as independent results. Not covered by a theorem: that the "
+                                   "implementation runs the model's segments (compared after every crash of every case).",
         "no_invention": "state level (HappyModel.C15.no_invention): a recovered cell is the cell of a surviving log entry of that key or is held by an SSTable; "
                         "run level: crash_facts_run gives a started put of the workload for every recovered value.",
     }
@@ -533,6 +532,13 @@ THEOREMS = [
     "HappyModel.C15.judgePhases_later",
     "HappyModel.C15.kstart_first",
     "HappyModel.C15.multi_crash_spec_partial",
+    "HappyModel.C15.run_live",
+    "HappyModel.C14.sysInvB_step",
+    "HappyModel.C14.linvB_step",
+    "HappyModel.C15.winvB_run",
+    "HappyModel.C15.recovered_casesB",
+    "HappyModel.C15.later_phase_judgeB",
+    "HappyModel.C15.multi_crash_spec_full_proved",
 ]
 C15.theorems = THEOREMS
 PROPERTY = C15()
